@@ -270,8 +270,76 @@ func (w *World) Place(b []byte) error {
 	return os.WriteFile(w.CertFile, b, 0o600)
 }
 
+// Pin is one advertised fingerprint.
+type Pin struct {
+	Where string // where it was shown
+	FP    string
+	Addr  string // address it was shown with, if any
+}
+
+// Runner performs the runs of a history: in-process through sstls.Listen, or
+// with the real binary on a pty.
+type Runner interface {
+	Start(w *World, cached bool) StartResult
+	Stop(w *World) string                                // a problem description, or ""
+	Advert(w *World, kind string) ([]Pin, string, error) // pins advertised by the action, the key served now
+}
+
+// InProc is the Runner that calls sstls.Listen directly.
+type InProc struct{}
+
+// Start implements Runner.
+func (InProc) Start(w *World, cached bool) StartResult { return w.Start(cached) }
+
+// Stop implements Runner.
+func (InProc) Stop(w *World) string { w.Stop(); return "" }
+
+// Advert implements Runner.
+func (InProc) Advert(w *World, kind string) ([]Pin, string, error) {
+	if w.l == nil {
+		return nil, "", fmt.Errorf("not running")
+	}
+	leaf, err := Handshake(w.l.Addr().String())
+	if err != nil {
+		return nil, "", err
+	}
+	return []Pin{{Where: "Listener.Fingerprint", FP: w.l.Fingerprint}}, SPKIHash(leaf), nil
+}
+
+// RNG exposes the world's seeded generator.
+func (w *World) RNG() *rand.Rand { return w.rng }
+
+// Seen records that a fingerprint has been observed and reports whether it was known.
+func (w *World) Seen(fp string) bool {
+	k := w.seen[fp]
+	w.seen[fp] = true
+	return k
+}
+
+// Made returns the directories that did not exist before the first save and forgets them.
+func (w *World) Made() []string {
+	m := w.made
+	return m
+}
+
+// ForgetMade notes that the directories now exist.
+func (w *World) ForgetMade() { w.made = nil }
+
+// StatFile describes the cache file.
+func StatFile(p string) FileStat { return statFile(p) }
+
+// FileStat is exported for runners.
+type FileStat = fileStat
+
+// Exists reports whether the file was there.
+func (f fileStat) Exists() bool { return f.exists }
+
+// Mode returns the file's mode.
+func (f fileStat) Mode() os.FileMode { return f.mode }
+
 // StartResult is what one real run did.
 type StartResult struct {
+	Pins        []Pin
 	Outcome     string // generated | reused | failed
 	FP          string // fingerprint served (independently computed)
 	Advertised  string // Listener.Fingerprint
@@ -279,6 +347,8 @@ type StartResult struct {
 	Before      fileStat
 	After       fileStat
 	ModeProblem string
+	AddrProblem string // a printed one-liner names the wrong port
+	CurlProblem string // real curl --pinnedpubkey disagrees
 }
 
 // Start performs one run: sstls.Listen with or without the cache + a handshake.
@@ -311,6 +381,7 @@ func (w *World) Start(cached bool) StartResult {
 	}
 	res.FP = SPKIHash(leaf)
 	res.Advertised = l.Fingerprint
+	res.Pins = []Pin{{Where: "Listener.Fingerprint", FP: l.Fingerprint}}
 	if w.seen[res.FP] {
 		res.Outcome = "reused"
 	} else {
